@@ -8,6 +8,7 @@ import (
 
 	sdk "github.com/cosmos/cosmos-sdk/types"
 
+	liqV2types "github.com/comdex-official/comdex/x/liquidationsV2/types"
 	liqtypes "github.com/comdex-official/comdex/x/liquidity/types"
 
 	"verif/ev"
@@ -62,7 +63,10 @@ func c20Generic(t *testing.T, rec *ev.Rec, w c20World, queries []c20Query, contS
 	defer imp.Close()
 	rec.Count("imports", 1)
 	nBefore := rec.NViolations()
+	healCursors := false
+	c20Where = w.name + ", right after the import"
 	c20CompareQueries(rec, c, imp, queries, addrs)
+	c20Where = ""
 	if w.counters != nil {
 		a := w.counters(c, c.App.BaseApp.NewContext(true, c.Header))
 		b := w.counters(imp, imp.App.BaseApp.NewContext(true, imp.Header))
@@ -92,10 +96,42 @@ func c20Generic(t *testing.T, rec *ev.Rec, w c20World, queries []c20Query, contS
 		rec.Count("continuations_skipped_after_import_difference", 1)
 		return
 	}
+	// the cursors of the two liquidation sweeps are not part of genesis (reported under their own label): they are copied
+	// to the imported chain so that the continuation still decides everything else (with a cursor at the head of the
+	// list the re-imported chain would look at other positions first and hand out other locked-vault ids)
+	{
+		oc, ic := c.App.BaseApp.NewContext(true, c.Header), imp.App.BaseApp.NewContext(true, imp.Header)
+		differs := false
+		for _, id := range []uint64{0, 1} {
+			a, fa := c.App.NewliqKeeper.GetLiquidationOffsetHolder(oc, liqV2types.VaultLiquidationsOffsetPrefix, id)
+			b, fb := imp.App.NewliqKeeper.GetLiquidationOffsetHolder(ic, liqV2types.VaultLiquidationsOffsetPrefix, id)
+			rec.Eval(1)
+			rec.Count("sweep_cursors_compared", 1)
+			if fa != fb || a.CurrentOffset != b.CurrentOffset {
+				differs = true
+				rec.Violate("C20/state/liquidationsV2/sweep-cursor-not-carried", fmt.Sprintf("sweep cursor %d is %d (present %v) on the original chain and %d (present %v) after the round trip", id, a.CurrentOffset, fa, b.CurrentOffset, fb), map[string]interface{}{"universe": w.name})
+			}
+		}
+		healCursors = differs
+	}
 	rec.Count("clean_imports:"+w.name, 1)
 	dt := 6 * time.Second
 	c.Header.Time = c.Header.Time.Add(dt)
 	imp.Header.Time = c.Header.Time
+	if healCursors {
+		// before the first block of the continuation begins (the sweeps run in its begin blocker): written straight into
+		// the module's store of the imported chain, no block is open yet
+		if key := storeKeys(imp)[liqV2types.StoreKey]; key != nil {
+			st := imp.App.CommitMultiStore().GetKVStore(key)
+			oc := c.App.BaseApp.NewContext(true, c.Header)
+			for _, id := range []uint64{0, 1} {
+				if h, found := c.App.NewliqKeeper.GetLiquidationOffsetHolder(oc, liqV2types.VaultLiquidationsOffsetPrefix, id); found {
+					st.Set(liqV2types.GetLiquidationOffsetHolderKey(h.AppId, liqV2types.VaultLiquidationsOffsetPrefix), liqV2types.MustMarshalLiquidationOffsetHolder(imp.App.AppCodec(), h))
+				}
+			}
+			rec.Count("continuations_after_copying_the_sweep_cursors", 1)
+		}
+	}
 	c.Begin()
 	imp.Begin()
 	for _, x := range []*sim.Chain{c, imp} {
@@ -121,6 +157,7 @@ func c20Generic(t *testing.T, rec *ev.Rec, w c20World, queries []c20Query, contS
 			}
 			continue
 		}
+		_ = i
 		rec.Eval(1)
 		rec.Count("continuation_txs_compared", 1)
 		if sim.ResultDigestNoGas(res) != rc.ResultNoGas {
@@ -137,7 +174,9 @@ func c20Generic(t *testing.T, rec *ev.Rec, w c20World, queries []c20Query, contS
 	c.EndAndCommit()
 	imp.EndAndCommit()
 	before := rec.NViolations()
+	c20Where = w.name + ", after the continuation"
 	c20CompareQueries(rec, c, imp, queries, addrs)
+	c20Where = ""
 	if rec.NViolations() == before {
 		rec.Count("continuations_identical", 1)
 	}
@@ -188,7 +227,11 @@ func c20LiqLend(t *testing.T, rec *ev.Rec, round int, queries []c20Query) {
 		c20Generic(t, rec, c20World{name: "lend", c: e.c, run: run,
 			counters: func(c *sim.Chain, ctx sdk.Context) map[string]uint64 {
 				k := c.App.LendKeeper
-				return map[string]uint64{"lend/lend-id": k.GetUserLendIDCounter(ctx), "lend/borrow-id": k.GetUserBorrowIDCounter(ctx), "lend/pool-id": k.GetPoolID(ctx), "lend/pair-id": k.GetLendPairID(ctx)}
+				// the liquidation sweep runs in this universe as well (a long history seizes borrows before the export):
+				// its id counters are compared here too, so that their known loss is reported under its own label
+				// instead of surfacing as query differences after the continuation
+				return map[string]uint64{"lend/lend-id": k.GetUserLendIDCounter(ctx), "lend/borrow-id": k.GetUserBorrowIDCounter(ctx), "lend/pool-id": k.GetPoolID(ctx), "lend/pair-id": k.GetLendPairID(ctx),
+					"liquidationsV2/locked-vault-id": c.App.NewliqKeeper.GetLockedVaultID(ctx), "auctionsV2/auction-id": c.App.NewaucKeeper.GetAuctionID(ctx)}
 			}, liveIDs: c20LendLiveIDs}, queries, ev.Pick(150, 500))
 		e.c.Close()
 	}
